@@ -15,6 +15,10 @@ CONSTANTS
   AdvArgs <- AdvQ
   SetArgs <- SetQ
   Msgs <- MsgsQ
+  MCFreq = 2
+  Switch <- SwitchQ
+  Rewidth <- RewidthQ
+  Charsets <- CharsQ
   Depth = 3
 VIEW HView
 PROPERTY PFrameShape
